@@ -43,7 +43,8 @@ package vm
 //@ func loadChildCode
 //@ props C14
 //@ requires root != nil && cc != nil
-//@ havoc wrapCode
+//@ nocontract wrapCode
+//@ modifies nothing
 //@ ensures[C14.child.globals] result != nil && same(result.Globals, root.Globals)
 //@ func (*VirtualMachine).activateCode
 //@ trusted
